@@ -88,11 +88,11 @@ def evaluate(patch: str, demo: str | None, run_tests: bool = True) -> dict:
         shutil.rmtree(d, ignore_errors=True)
 
 
-def refresh_archive(run_tests: bool) -> int:
-    """Re-evaluate every archived seed against the current /repo and the current checks; rewrites 'fired' in meta.json."""
+def refresh_archive(run_tests: bool, only: str = "*") -> int:
+    """Re-evaluate every archived seed (or those matching ``only``) against the current /repo and the current checks; rewrites 'fired' in meta.json."""
     from concurrent.futures import ThreadPoolExecutor
 
-    dirs = sorted(glob.glob("/verif/seeded/*/"))
+    dirs = sorted(glob.glob(f"/verif/seeded/{only}/"))
 
     def one(d):
         meta_p = os.path.join(d, "meta.json")
@@ -119,7 +119,7 @@ def refresh_archive(run_tests: bool) -> int:
 def main() -> int:
     args = sys.argv[1:]
     if args and args[0] == "--archive":
-        return refresh_archive("--with-tests" in args)
+        return refresh_archive("--with-tests" in args, args[args.index("--only") + 1] if "--only" in args else "*")
     keep = None
     run_tests = True
     if "--keep-as" in args:
